@@ -59,6 +59,14 @@ DIRECTED = [
     # a call abandoned before the handshake: its request still goes out, the answer is absorbed, a later call is served
     ('abandoned', 1, [('Call', 0, 'GetTx', 1), ('Timeout', 0, '', 0), ('Accept', 0, 'valid', 0), ('Ready', 1, '', 0), ('Call', 1, 'GetTx', 1),
                       ('RespondStale', 0, 'GetTx', 1), ('Respond', 1, 'ok', 0)]),
+    # a request whose write fails is carried over to the next connection: written there after the handshake, ahead of the queue, once
+    ('carried-over-control', 2, [('Accept', 0, 'valid', 0), ('Call', 0, 'GetTx', 1), ('Respond', 0, 'ok', 0), ('CallBig', 1, 'SendTx', 2), ('Drop', 0, '', 0),
+                                 ('Call', 2, 'GetHeader', 3), ('Subscribe', 0, 'subscribe_tx', 0), ('Accept', 0, 'valid', 0), ('Respond', 1, 'ok', 0), ('Respond', 2, 'ok', 0)]),
+    ('carried-over-full', 1, [('Accept', 0, 'valid', 0), ('Ready', 1, '', 0), ('CallBig', 0, 'SendTx', 1), ('Drop', 0, '', 0), ('Notify', 5, 'hdrs', 0), ('Accept', 0, 'valid', 0),
+                              ('Call', 1, 'GetTx', 2), ('Notify', 6, 'hdrs', 0), ('Ready', 1, '', 0), ('Respond', 1, 'ok', 0), ('Respond', 0, 'ok', 0)]),
+    ('carried-over-twice', 1, [('Accept', 0, 'valid', 0), ('Ready', 1, '', 0), ('CallBig', 2, 'SendTx', 3), ('Drop', 0, '', 0), ('Drop', 0, '', 0), ('Accept', 0, 'valid', 0),
+                               ('Drop', 0, '', 0), ('Accept', 0, 'valid', 0), ('ReadyRace', 2, '', 0), ('Respond', 2, 'reject', 0)]),
+    ('carried-over-then-forged', 2, [('Accept', 0, 'valid', 0), ('CallBig', 0, 'SendTx', 1), ('Drop', 0, '', 0), ('Accept', 0, 'badsig', 0)]),
 ]
 
 
